@@ -729,6 +729,9 @@ func c05Scenarios(tier string) []*ConcScenario {
 						ths = append(ths, []Op{opF})
 					}
 					sc := &ConcScenario{Prop: "C05", Cfg: c, Init: in.ops, Threads: ths, Bound: bound, Exec: execStore}
+					if withFlush {
+						sc.Extra = map[string]any{"final": reopenFinal}
+					}
 					sc.Name = fmt.Sprintf("c05/%s/%s/%s", c.String(), in.name, progString(ths))
 					sc.Desc = fmt.Sprintf("init %s [%s]; %s", in.name, opsString(in.ops), progString(ths))
 					scs = append(scs, sc)
@@ -743,7 +746,10 @@ func c05Scenarios(tier string) []*ConcScenario {
 		for _, cl := range [][]Op{{P(0, 2)}, {P(0, 2), P(1, 2)}, {R(0), P(1, 2)}} {
 			c := cfgs[0]
 			ths := [][]Op{cl, {opF}, {opF}}
-			sc := &ConcScenario{Prop: "C05", Cfg: c, Init: in.ops, Threads: ths, Bound: bound, Exec: execStore}
+			// (what the bucket table on disk says only shows after a reopen:
+			// the write pools answer until then)
+			sc := &ConcScenario{Prop: "C05", Cfg: c, Init: in.ops, Threads: ths, Bound: bound, Exec: execStore,
+				Extra: map[string]any{"final": reopenFinal}}
 			sc.Name = fmt.Sprintf("c05/%s/%s/%s", c.String(), in.name, progString(ths))
 			sc.Desc = fmt.Sprintf("init %s [%s]; %s", in.name, opsString(in.ops), progString(ths))
 			scs = append(scs, sc)
@@ -770,19 +776,31 @@ func reopenFinal(w *World, s *Sched, recs []callRec, res *execResult) {
 		res.viol = viol("call-error", "Close after quiescence: %v", err)
 		return
 	}
-	w.FS.RemoveRaw(idxPath + ".buckets")
-	if err := w.Open(); err != nil {
-		res.viol = viol("open-error", "reopen after quiescence: %v", err)
-		return
-	}
-	after := observeStore(w)
-	for i := range before {
-		if before[i] != after[i] {
-			res.viol = viol("key-lost", "after Flush+Close+reopen a read changed: %s became %s", before[i], after[i])
-			if strings.Contains(before[i], ":false:") {
-				res.viol.Symptom = "key-resurrected"
+	// through the saved bucket table first (what the in-memory table said at
+	// Close), then through a rescan of the index log
+	for _, rescan := range []bool{false, true} {
+		how := "Flush+Close+reopen"
+		if rescan {
+			if err := w.Close(); err != nil {
+				res.viol = viol("call-error", "second Close after quiescence: %v", err)
+				return
 			}
+			w.FS.RemoveRaw(idxPath + ".buckets")
+			how = "Flush+Close+reopen (index rescan)"
+		}
+		if err := w.Open(); err != nil {
+			res.viol = viol("open-error", "reopen after quiescence: %v", err)
 			return
+		}
+		after := observeStore(w)
+		for i := range before {
+			if before[i] != after[i] {
+				res.viol = viol("key-lost", "after %s a read changed: %s became %s", how, before[i], after[i])
+				if strings.Contains(before[i], ":false:") {
+					res.viol.Symptom = "key-resurrected"
+				}
+				return
+			}
 		}
 	}
 }
